@@ -21,16 +21,30 @@ Reading of the property (what the oracle demands; chosen so that minimally repai
   with the same duration in beats (tied duration of the note the alignment names), the same step / alter
   (None and 0 are the same) / octave, id, voice, staff, grace-ness, and the articulations the importer
   supports (staccato, accent).
+  Independently of the loaded measure structure every stored note is also demanded at the same distance
+  IN QUARTERS from the loaded origin (the first stored note if it is not after beat 0, else beat 0) and
+  with the same duration in quarters, on integer division times.
 * "measures at the same positions": for every saved measure holding a stored note whose start is not
-  before the first stored note, the loaded part has a measure starting at the same beat.  "time and key
-  signatures at the start of the bar where they were written": for every saved signature sitting on the
-  start of such a measure the loaded part has, at the loaded start of that measure, a signature object of
-  the same content (time signatures that repeat the previous one are not stored twice by the reader).
-  A key signature's mode None is written as major.
+  before the first stored note, the loaded part has a measure starting at the same beat.  The format
+  stores no measure for a bar without a stored note (the reader extends the previous measure over it, so
+  a pickup followed by such a bar is no longer recognisable): the clauses that compare BEAT positions and
+  measures are applied only when every bar from the first to the last stored note holds a stored note;
+  the quarter-position clauses always.
+* "time and key signatures at the start of the bar where they were written": every saved signature that
+  differs from the one before it is demanded, with the same content, at the same distance in quarters from
+  the loaded origin (clipped to the origin), whether or not its bar holds a stored note; a signature that is
+  replaced by the next one at or before the origin is not part of the loaded score.  A key signature's mode
+  None is written as major.
+* The written file itself must state the saved positions: beat times (four decimals) and measure numbers
+  (counted from 0 with a pickup, else from 1) of snote and signature lines, beat numbers >= 1.
+* Pedal events with the same tick and value are one line of text and are read once (exact duplicate lines
+  are removed by the reader, as documented).
 * De-duplication as documented in validate_match_ids: exact duplicate text lines are read once; if a
   score id occurs in several snote-carrying lines all DELETION lines with that id are dropped; if a
   performed id occurs in several note-carrying lines all INSERTION lines with that id are dropped;
-  matches are always kept; nothing else is dropped, nothing is duplicated.
+  matches are always kept; nothing else is dropped, nothing is duplicated.  (The version is taken from the
+  first line of the file, so the generated duplicates never displace that line.)
+* Every case runs under a wall-clock limit; a writer/reader that does not terminate is a failure.
 """
 import io
 import contextlib
